@@ -307,5 +307,8 @@ def run(ctx):
     r11_2(ctx)
     r11_3(ctx)
     r11_4(ctx)
+    from . import c02
+    c02.r2_1(ctx)
+    c02.r2_4(ctx)
     ctx.note("R11.5 (reconcile never lowers next_uid; UID state committed) is decided by C02 rules R2.1/R2.4")
     ctx.trust("frozen table of persistent operations: " + ", ".join(k for k, _, _ in OPS))
